@@ -1,0 +1,7 @@
+//go:build verif
+
+package decoder
+
+// Contracts for the verification harness under /verif (comment-only file).
+
+//@ func DecodeCRI
